@@ -8,6 +8,7 @@
 -/
 import Cobweb.Proofs.Kill
 import Cobweb.Proofs.ArcCount
+import Cobweb.Proofs.GcSend
 
 namespace Cobweb.C07
 
@@ -188,5 +189,56 @@ example : (exec demoProg demoHist 40 {}).stack = [] ∧ (exec demoProg demoHist 
     ((exec demoProg demoHist 40 {}).tbl .bc 1).map (·.arc) = [some 0] := by decide
 
 example : SigOK demoHist := by intro t s a h; simp only [demoHist] at h; split at h <;> cases h
+
+/-! ### the count is exact, and reaching zero sends the reactor to the collector (`Proofs/ArcExact.lean`, `GcSend.lean`) -/
+
+/-- **`arcRc a` = number of holders of `a`**, along every execution in which the user clones and drops only signals it
+    holds: beyond some bounds on the table keys, the handles of `a` in the type-wide tables, the per-entity tables, the
+    despawn tables, the queued registration / despawn-reaction commands and the despawn tracker number exactly `arcRc a`.
+    Together: a cleanup / revokable reactor's count is positive exactly as long as one of its triggers is registered (or
+    being registered) or a despawn reaction for it is pending. -/
+theorem count_is_number_of_holders {p : Prog} {hh : Hist} (hsig : SigOK2 hh) {s : St} (hr : Reach p hh ({} : St) s)
+    (a : Nat) (ha : a ∉ s.sigs) : ∃ B N, ∀ B' N', B ≤ B' → N ≤ N' → holders B' N' a s = s.arcRc a :=
+  arc_exact p hh hsig hr a ha
+
+/-- **No leak**: an arc nobody holds has count zero. -/
+theorem unheld_arc_has_count_zero {p : Prog} {hh : Hist} (hsig : SigOK2 hh) {s : St} (hr : Reach p hh ({} : St) s)
+    (a : Nat) (ha : a ∉ s.sigs) (h0 : ∀ B N, holders B N a s = 0) : s.arcRc a = 0 :=
+  no_holder_zero p hh hsig hr a ha h0
+
+/-- **The step in which the last holder disappears hands the reactor to the collector**: if the count of an existing arc
+    is positive before a step and zero after it, the arc's entity is on the auto-despawn channel after the step. -/
+theorem last_release_sends_to_collector {p : Prog} {hh : Hist} {s s' : St} (ht : tick p hh s = some s') (a : Nat)
+    (ha : a < s.nextArc) (hp : 0 < s.arcRc a) (h0 : s'.arcRc a = 0) : s.arcEnt a ∈ s'.autoChan :=
+  zero_sends ht a ha hp h0
+
+/-- The collector takes what is on the channel, oldest first, and despawns it if it is still alive. -/
+theorem collector_drains (s : St) (e : Nat) (es : List Nat) (h : s.autoChan = e :: es) :
+    (doGc s).autoChan = es ∧ (doGc s).stack = .despawnWork [(e, false)] :: .gc :: s.stack := gc_takes_oldest s e es h
+
+theorem collector_despawns (s : St) (e : Nat) (work : List (Nat × Bool)) :
+    doDespawnWork s ((e, true) :: work) = (despawn1 s e).push [.despawnWork work] := despawn_work_kills s e work
+
+/-- Non-vacuity: a revokable reactor with two triggers is registered, then revoked, then a frame ends: after the revoke
+    its count is 0 and it is on the collector's channel; after the frame it is gone and the tables are empty. -/
+def demoHist2 : Hist :=
+  { op := fun t _ => if t < 2 then some .acts else if t = 2 then some .frameEnd else none,
+    act := fun t i _ => match t, i with
+      | 0, 0 => some (.on .revokable 0 false [.bc 0, .res 1])
+      | 1, 0 => some (.revoke 0 [.bc 0, .res 1])
+      | _, _ => none }
+
+example : (exec demoProg demoHist2 12 {}).arcRc 0 = 2 ∧ (exec demoProg demoHist2 12 {}).alive 0 = true := by decide
+
+example : (exec demoProg demoHist2 20 {}).arcRc 0 = 0 ∧ (exec demoProg demoHist2 20 {}).autoChan = [0] ∧
+    (exec demoProg demoHist2 20 {}).alive 0 = true := by decide
+
+example : (exec demoProg demoHist2 40 {}).stack = [] ∧ (exec demoProg demoHist2 40 {}).alive 0 = false ∧
+    (exec demoProg demoHist2 40 {}).autoChan = [] ∧ (exec demoProg demoHist2 40 {}).tbl .bc 0 = [] := by decide
+
+example : SigOK2 demoHist2 := by
+  intro t s a h
+  simp only [demoHist2] at h
+  rcases h with h | h <;> (split at h <;> (try split at h) <;> cases h)
 
 end Cobweb.C07
